@@ -322,7 +322,7 @@ def _documents_inner(case):
     buf = b"".join(parts)
     mode = case.get("mode")
     if mode == "failed_debug_parse_first":
-        call(M.from_bytes, bytes.fromhex(MALFORMED[case.get("k", 0) % len(MALFORMED)]), True, allowed=(Exception,))
+        bounded(M.from_bytes, bytes.fromhex(MALFORMED[case.get("k", 0) % len(MALFORMED)]), True, allowed=(Exception,))
     _, parsed = bounded(M.from_bytes, buf, mode in ("debug_parse", "failed_debug_parse_first"), clause="canonical_buffer_parses")
     if mode == "flag_on_while_serialising":
         M.DEBUG = True
